@@ -229,6 +229,15 @@ type faultCase struct {
 
 var faultTree = []xfer.FileSpec{{Rel: "a.bin", Size: 20}, {Rel: "sub/b.bin", Size: 9}, {Rel: "sub/empty", Size: 0}}
 
+// faultTargets: the files whose source is changed after the scan / whose output path is obstructed
+// by a directory, and the directories whose output path is obstructed by a regular file.
+var faultTargets = []string{"a.bin", "sub/b.bin"}
+var faultDirTargets []string
+
+// the second tree has nothing but empty files and empty directories: no chunk ever flows, every
+// confirmation the sender gets is a FileDone record
+var emptyFaultTree = []xfer.FileSpec{{Rel: "z0", Size: 0}, {Rel: "d/z1", Size: 0}, {Rel: "d/void", Size: -1}, {Rel: "lone", Size: -1}}
+
 const faultChunk = 8
 
 // XferFaults enumerates faults at every byte position of every stream and evaluates C02's oracle.
@@ -241,8 +250,12 @@ func XferFaults(args []string) {
 	wd := fs.Duration("watchdog", 6*time.Second, "watchdog after which a run counts as hung")
 	budget := fs.Duration("budget", 10*time.Minute, "wall-clock budget")
 	traceOut := fs.String("trace-out", "", "prefix of the hook trace file for SessionTrace.tla (shard number appended)")
+	treeName := fs.String("tree", "default", "default | empty (only empty files and empty directories)")
 	fs.Parse(args)
 	installHooks()
+	if *treeName == "empty" {
+		faultTree, faultTargets, faultDirTargets = emptyFaultTree, []string{"z0", "d/z1"}, []string{"d/void", "lone"}
+	}
 	if *traceOut != "" {
 		if f, err := os.Create(fmt.Sprintf("%s.%d", *traceOut, *shard)); err == nil {
 			defer f.Close()
@@ -306,11 +319,15 @@ func XferFaults(args []string) {
 			cases = append(cases, faultCase{Name: "cancel", Streams: ns, Mode: "mock", Cancel: "sender", After: int64(after)})
 			cases = append(cases, faultCase{Name: "cancel", Streams: ns, Mode: "mock", Cancel: "receiver", After: int64(after)})
 		}
-		for _, f := range []string{"a.bin", "sub/b.bin"} {
+		for _, f := range faultTargets {
 			for _, k := range []string{"shrink1:", "shrinkhalf:", "truncate:", "remove:", "grow:"} {
 				cases = append(cases, faultCase{Name: "source", Streams: ns, Mode: "mock", Source: k + f})
 			}
-			cases = append(cases, faultCase{Name: "sink", Streams: ns, Mode: "mock", Sink: "dir-at:" + f})
+			cases = append(cases, faultCase{Name: "sink", Streams: ns, Mode: "mock", Sink: "dir-at:" + f}, faultCase{Name: "sink", Streams: ns, Mode: "vquic", Sink: "dir-at:" + f})
+		}
+		// a regular file where a directory of the tree has to be created
+		for _, d := range faultDirTargets {
+			cases = append(cases, faultCase{Name: "sink", Streams: ns, Mode: "mock", Sink: "file-at:" + d}, faultCase{Name: "sink", Streams: ns, Mode: "vquic", Sink: "file-at:" + d})
 		}
 		cases = append(cases, faultCase{Name: "sink", Streams: ns, Mode: "mock", Sink: "readonly"})
 		_ = maxBytes
@@ -433,9 +450,14 @@ func runFaultCase(base string, c faultCase, seed int64, wd time.Duration, tap fu
 		os.MkdirAll(filepath.Join(outDir, "payload"), 0755)
 		if strings.HasPrefix(c.Sink, "dir-at:") {
 			os.MkdirAll(filepath.Join(outDir, "payload", filepath.FromSlash(strings.TrimPrefix(c.Sink, "dir-at:"))), 0755)
+		} else if strings.HasPrefix(c.Sink, "file-at:") {
+			p := filepath.Join(outDir, "payload", filepath.FromSlash(strings.TrimPrefix(c.Sink, "file-at:")))
+			os.MkdirAll(filepath.Dir(p), 0755)
+			os.WriteFile(p, []byte("in the way"), 0644)
 		} else {
-			os.MkdirAll(filepath.Join(outDir, "payload", "sub"), 0555)
-			defer os.Chmod(filepath.Join(outDir, "payload", "sub"), 0755)
+			ro := filepath.Join(outDir, "payload", filepath.Dir(filepath.FromSlash(faultTargets[1])))
+			os.MkdirAll(ro, 0555)
+			defer os.Chmod(ro, 0755)
 		}
 	}
 	out, err := xfer.Run(cfg, src, outDir)
